@@ -112,9 +112,7 @@ def sqrt(x):
         e = _exact_sqrt(x.n)
         if e is not None:
             return R(e)
-        if ctx().mode == 'concrete':
-            return R(Fr(math.sqrt(x.n)))
-        # irrational constant: algebraic variable r >= 0, r^2 = x
+        return R(Fr(math.sqrt(x.n)))      # irrational constant: the double (idealisation, DESIGN §1.5)
     k, e = _lookup('sqrt', x)
     if e is not None:
         return e.out
